@@ -552,9 +552,14 @@ func Property() runner.Property {
 			}{{"fsub,sub", []hx.Spec{sp("fsub", 2), sp("sub", 0)}, "0:fsub"}, {"sub,sub", subsub, "0:sub"}, {"clone(sub),sub", cl, "0:clone/0:sub"}} {
 				out = append(out, scenario(cfg{Name: tr.name + "/slow", Tree: tr.tree, Stalled: st(tr.st), K: 3, ResumeRead: 1, ResumeMore: 2, Paced: true, Mode: "S2", Bound: 2}))
 				out = append(out, scenario(cfg{Name: tr.name + "/slow-concurrent", Tree: tr.tree, Stalled: st(tr.st), K: 3, ResumeRead: 1, ResumeMore: 2, ResumeConcurrent: true, Mode: "S2", Bound: 2}))
+				// a stall through more than twice the buffer, then the consumer comes back: it is still subscribed
+				out = append(out, scenario(cfg{Name: tr.name + "/slow", Tree: tr.tree, Stalled: st(tr.st), K: 5, ResumeRead: 1, ResumeMore: 2, Paced: true, Mode: "S2", Bound: 1}))
 				// a larger model buffer (4): overflow by one, read one, one more event must fit
 				out = append(out, scenario(cfg{Name: tr.name + "/slow", Tree: tr.tree, Stalled: st(tr.st), K: 5, Buf: 4, ResumeRead: 1, ResumeMore: 1, Paced: true, Mode: "S2", Bound: 1}))
 			}
+			// a stall through more events than the library's real buffer (100) holds, however small the model's
+			// buffer: the consumer is still subscribed when it comes back (default schedule and one deviation)
+			out = append(out, scenario(cfg{Name: "sub,sub/slow-long-stall", Tree: subsub, Stalled: st("0:sub"), K: 120, ResumeRead: 1, ResumeMore: 2, Paced: true, Mode: "D0"}))
 			for _, k := range []int{1, 3} {
 				out = append(out, scenario(cfg{Name: "mon(blocked-in-OnInitialize),sub", Tree: mon, Stalled: st("0:mon"), StallInit: true, K: k, Mode: "S2", Bound: 2}))
 			}
